@@ -87,6 +87,16 @@ def oid_at(occ, root, uri_or_file, rg, texts=None):
     return -2
 
 
+def oids_at(occ, root, uri_or_file, rg, texts=None):
+    """like oid_at, but the range of a whole import argument `a as x` stands for its two tokens"""
+    one = oid_at(occ, root, uri_or_file, rg, texts)
+    if one != -2:
+        return [one]
+    f = L.rel(root, uri_or_file)
+    both = [oid for oid, o in occ.items() if o["f"] == f and "arg" in o and rg == [o["line"], o["arg"][0], o["line"], o["arg"][1]]]
+    return sorted(both) or [-2]
+
+
 def open_all(srv, p, texts=None):
     texts = texts or p["texts"]
     for fn in sorted(texts, key=lambda x: x == "main.asm"):        # main last
@@ -114,9 +124,9 @@ def nav_observe(mos, p):
             row["def"] = oid_at(p["occ"], root, l0.get("targetUri", l0.get("uri")), L.rng4(l0.get("targetSelectionRange", l0.get("range"))), p["texts"])
         for key, incl in (("refsT", True), ("refsF", False)):
             r = srv.request(*L.params_for("references", path, ln, ch, include_decl=incl))
-            row[key] = sorted({oid_at(p["occ"], root, x["uri"], L.rng4(x["range"]), p["texts"]) for x in (r["result"] or [])}) if r["status"] == "ok" else [-3]
+            row[key] = sorted({o_ for x in (r["result"] or []) for o_ in oids_at(p["occ"], root, x["uri"], L.rng4(x["range"]), p["texts"])}) if r["status"] == "ok" else [-3]
         r = srv.request(*L.params_for("highlight", path, ln, ch))
-        row["hl"] = sorted({oid_at(p["occ"], root, path, L.rng4(x["range"]), p["texts"]) for x in (r["result"] or [])}) if r["status"] == "ok" else [-3]
+        row["hl"] = sorted({o_ for x in (r["result"] or []) for o_ in oids_at(p["occ"], root, path, L.rng4(x["range"]), p["texts"])}) if r["status"] == "ok" else [-3]
         raw[oid] = row
         obs.append(row)
     alive = srv.alive()
